@@ -160,3 +160,21 @@ func (v *VerifRun) Grow(d int) bool {
 
 // VerifWindow exposes the nack window a DLQ was constructed with.
 func (d *DLQ) VerifWindow() *VerifDLQWindow { return &VerifDLQWindow{w: d.window} }
+
+// ---- shared sink (N source workers on one shared TaskNode subtree) ----
+
+// VerifSharedState reports, without blocking, whether t is a shared-boundary root, whether its
+// sharedMu is held at this instant, and whether its poison latch is set. It is meant to be called
+// from inside a fake plugin call made by the engine while the lock is held (TryLock then fails and
+// changes nothing); when the lock is free the probe takes and releases it at once.
+func (t *TaskNode) VerifSharedState() (shared, locked, poisoned bool) {
+	if !t.sharedBoundary || t.sharedMu == nil {
+		return false, false, false
+	}
+	if t.sharedMu.TryLock() {
+		t.sharedMu.Unlock()
+	} else {
+		locked = true
+	}
+	return true, locked, t.poisoned.Load()
+}
